@@ -266,18 +266,18 @@ def run(ctx):
             ts_exact.append(['dec', str(Decimal(rng.randrange(10 ** rng.randint(1, 16))).scaleb(-rng.choice([0, 1, 3, 4, 4, 5, 7])))])
     ts_exact += [['dec', '10.0015'], ['dec', '10.0025'], ['dec', '0.0005'], ['int', '10'], ['dec', '1E+3']]
     ts_lex = [gen_int_lex(rng) for _ in range(ctx.n(600, 8000))]
-    dec_vals = [gen_dec_val(rng) for _ in range(ctx.n(3000, 60000))]
+    dec_vals = [gen_dec_val(rng) for _ in range(ctx.n(3000, 36000))]
     dec_vals += [[False, '1', -7], [False, '1', -18], [False, '123456789012345678', -18], [False, '123456789012345678', 3],
                  [True, '0', -1], [False, '0', -15], [False, '123', -3], [False, '0', 3], [True, '1', -7], [False, '1', 18]]
-    dec_lex = [gen_dec_lex(rng) for _ in range(ctx.n(2500, 40000))] + ['NaN', 'Infinity', '-Infinity', 'sNaN', '1E5', '1e-3', '1_0', '٣', '.', '', '5.', '.5', '-0', '+.0']
+    dec_lex = [gen_dec_lex(rng) for _ in range(ctx.n(2500, 24000))] + ['NaN', 'Infinity', '-Infinity', 'sNaN', '1E5', '1e-3', '1_0', '٣', '.', '', '5.', '.5', '-0', '+.0']
     int_vals = [rng.choice([1, -1]) * rng.randrange(1 << rng.randint(1, 80)) for _ in range(ctx.n(600, 8000))] + [0, 1 << 32, 1 << 64, -(1 << 63)]
-    int_lex = [gen_int_lex(rng) for _ in range(ctx.n(1500, 20000))] + ['1_000', '٣', ' 1 ', '\x0b1', '1\x1f', ' 1', '+5', '-0', '', '+', '0x10', '1e3', '1.0']
+    int_lex = [gen_int_lex(rng) for _ in range(ctx.n(1500, 12000))] + ['1_000', '٣', ' 1 ', '\x0b1', '1\x1f', ' 1', '+5', '-0', '', '+', '0x10', '1e3', '1.0']
     bool_lex = ['true', 'false', '1', '0', 'foo', '', 'True', 'FALSE', ' true', 'true ', '2', '00', '01', 'yes', 'tru', 'truee', '\n1']
     bool_lex += [mutate(rng, rng.choice(['true', 'false', '1', '0'])) for _ in range(ctx.n(150, 1500))]
-    dur_vals = [gen_dur_val(rng) for _ in range(ctx.n(2500, 40000))]
-    dur_lex = [gen_dur_lex(rng) for _ in range(ctx.n(2500, 40000))] + ['PT١S', 'PT1S\n', 'PT', 'PT0.0000005S', 'PT0.0000015S', 'PT1.0000005S']
-    dt_vals = [gen_dt_val(rng) for _ in range(ctx.n(1500, 25000))]
-    dt_lex = [gen_dt_lex(rng) for _ in range(ctx.n(2500, 40000))] + ['２０２０', '2020-02-31', '2021-02-29', '2020-05:00', '0000', '-0000', '2020-05-06T24:00:00.000Z']
+    dur_vals = [gen_dur_val(rng) for _ in range(ctx.n(2500, 24000))]
+    dur_lex = [gen_dur_lex(rng) for _ in range(ctx.n(2500, 24000))] + ['PT١S', 'PT1S\n', 'PT', 'PT0.0000005S', 'PT0.0000015S', 'PT1.0000005S']
+    dt_vals = [gen_dt_val(rng) for _ in range(ctx.n(1500, 15000))]
+    dt_lex = [gen_dt_lex(rng) for _ in range(ctx.n(2500, 24000))] + ['２０２０', '2020-02-31', '2021-02-29', '2020-05:00', '0000', '-0000', '2020-05-06T24:00:00.000Z']
     payload = {'ts_window': win, 'ts_ns': ts_ns, 'ts_floats': ts_floats, 'ts_exact': ts_exact, 'ts_lex': ts_lex, 'dec_vals': dec_vals,
                'dec_lex': dec_lex, 'int_vals': [str(n) for n in int_vals], 'int_lex': int_lex, 'bool_lex': bool_lex, 'enum': ctx.seed,
                'dur_vals': dur_vals, 'dur_lex': dur_lex, 'dt_vals': dt_vals, 'dt_lex': dt_lex, 'wiring': 1}
